@@ -267,7 +267,8 @@ class NumInterp(Interp):
         self.stdlib = {'textwrap': _tw, 'itertools': _it, 'json': _json}     # pure standard-library helpers may be called
         self.builtins = {'chr': chr, 'ord': ord, 'str': str, 'sorted': sorted, 'reversed': reversed, 'set': set, 'any': any, 'all': all, 'dict': dict, 'bool': bool,
                          'range': range, 'len': len, 'list': list, 'tuple': tuple, 'enumerate': enumerate, 'sum': sum,
-                         'int': int, 'float': float, 'complex': complex, 'abs': abs, 'max': max, 'min': min, 'zip': zip}
+                         'int': int, 'float': float, 'complex': complex, 'abs': abs, 'max': max, 'min': min, 'zip': zip, 'bin': bin, 'hex': hex, 'divmod': divmod, 'round': round,
+                         'isinstance': isinstance, 'map': map, 'repr': repr}
 
     def ev(self, n):
         if isinstance(n, ast.Name) and n.id not in self.env and n.id in self.builtins:
@@ -333,7 +334,8 @@ class NumInterp(Interp):
                     else:
                         raise Unsupported(f'isinstance against {ts}')
                 return res
-            if isinstance(n.func, ast.Attribute) and n.func.attr in ('join', 'split', 'startswith', 'endswith', 'strip', 'items', 'keys', 'values', 'get', 'index', 'count', 'upper', 'lower', 'format', 'replace'):
+            if isinstance(n.func, ast.Attribute) and n.func.attr in ('join', 'split', 'startswith', 'endswith', 'strip', 'items', 'keys', 'values', 'get', 'index', 'count', 'upper', 'lower', 'format', 'replace',
+                                                                         'removeprefix', 'removesuffix', 'reverse', 'extend', 'zfill', 'rjust', 'ljust', 'copy', 'tolist'):
                 try:
                     recv = self.ev(n.func.value)
                 except Unsupported:
